@@ -854,14 +854,17 @@ def explore_physical(ctx):
     # which a folder may treat specially) at every octet offset around the first and the
     # second fold point
     boundary = []
-    samples = [" ", "\t", "é", "€", "\U0001F600"] + \
+    # (incl. the first and last code point of every UTF-8 width class)
+    samples = [" ", "\t", "é", "€", "\U0001F600", "\u0080", "\u07ff", "\u0800", "\uffff", "\U00010000",
+               "\U0010FFFF"] + \
         sorted(ch for ch in distinguished_chars(model) if ord(ch) >= 0x80 and not 0xD800 <= ord(ch) <= 0xDFFF)
     seen_w = set()
     for c in samples:
         w = (len(c.encode("utf-8")), c if c in " \t" else "")
+        edge = ord(c) in (0x80, 0x7FF, 0x800, 0xFFFF, 0x10000, 0x10FFFF)
         if w in seen_w and ord(c) < 0x80:
             continue
-        if w in seen_w and not ctx.thorough and c not in distinguished_chars(model):
+        if w in seen_w and not ctx.thorough and not edge and c not in distinguished_chars(model):
             continue
         seen_w.add(w)
         for r in list(range(66, 76)) + list(range(140, 151)) + ([214, 215, 216, 217, 218, 219, 220, 221, 222] if ctx.thorough else []):
@@ -925,13 +928,15 @@ def explore_physical(ctx):
                 except AbsRaise as e:
                     F.add("unfold", f"Contentline.from_ical / to_ical raises {e.cls_name} on a line folded "
                           f"by characters", line=L[:30] + "…")
-        for L in boundary:
+        for L, as_bytes in [(L, False) for L in boundary] + [(L, True) for L in boundary[::3]]:
             F.n += 1
-            cl = it.instantiate(CL, [L], {})
+            # a line object may be built from text or from its UTF-8 octets
+            cl = it.instantiate(CL, [L.encode("utf-8") if as_bytes else L], {})
             phys = it.run(it.getattr(cl, "to_ical"), [], {})
             if not isinstance(phys, bytes):
                 raise Unsupported(f"Contentline.to_ical returned {phys!r}")
-            check_physical(L, phys, "Contentline(text).to_ical(), character at a fold boundary")
+            check_physical(L, phys, f"Contentline({'octets' if as_bytes else 'text'}).to_ical(), character "
+                           f"at a fold boundary")
             try:
                 back = _s(it.run(line_from, [phys], {}))
             except AbsRaise as e:
